@@ -316,6 +316,11 @@ func (c20) Gen(rng *rand.Rand, tier string, emit func(string)) {
 		limbs := []int{1, 2, 4}[rng.Intn(3)]
 		ops := c20Ops[limbs]
 		op := ops[rng.Intn(len(ops))]
+		if tier == "thorough" && limbs == 4 && op == "div" && rng.Intn(2) == 0 {
+			// the Lean transcription of the quadratic Uint256.Div costs ~8 ms per case and the model runs in one process:
+			// 90k such cases over the 8 seeds were 12 of the 17 minutes of a thorough run; half of the random ones become Mul
+			op = "mul"
+		}
 		a := c20Val(rng, limbs)
 		var c string
 		switch op {
@@ -418,7 +423,7 @@ func c20Frontier(rng *rand.Rand, tier string, emit func(string)) {
 				}
 			}
 			// exact and nearly exact divisions (quotient digit corrections)
-			if limbs == 2 || (limbs == 4 && r%4 == 0) {
+			if limbs == 2 || (limbs == 4 && tier != "thorough" && r%4 == 0) || (limbs == 4 && tier == "thorough" && r%8 == 0) {
 				dv := toBig(c20Val(rng, limbs))
 				if rng.Intn(2) == 0 {
 					dv = new(big.Int).SetUint64(c20Limb(rng))
